@@ -1242,7 +1242,11 @@ func NamedLocals(fn *ssa.Function) (params []string, locals []string, allocs []*
 }
 
 func (g *FuncGen) applyRecordedNames() {
-	rec := g.env.Bindings[fnPkgPath(g.fn)+"|"+g.key]
+	bk := g.key
+	if i := strings.Index(bk, " #"); i >= 0 {
+		bk = bk[:i]
+	}
+	rec := g.env.Bindings[fnPkgPath(g.fn)+"|"+bk]
 	if rec == nil {
 		return
 	}
